@@ -31,7 +31,7 @@ PROPS = {
         "assumptions": ["pointers fit in 63 bits", "EqualKeyFn compares the key stored behind the pointer with the lookup key", "nodes added to a NodeList are not already in it"],
     },
     "C09": {
-        "runs": [run("mvcc-iter", 500, 8000)],
+        "runs": [run("mvcc-iter", 500, 8000), run("stress", 8, 150, model=False)],
         "level_text": "Theorems for every comparator with the total-preorder laws, every store satisfying the store invariant (any invisible older/newer versions present), every snapshot number: Seek lands on the first visible version with key >= probe, SeekFirst on the first visible, Next on the next visible, Refresh does not move the iterator, a scan with any refresh rate = the view, the view is strictly increasing. The iterator model is tied to iterator.go / skiplist/iterator.go by replaying generated iterator scripts (Seek present/absent/below/above, Next, Refresh, SetRefreshRate) on real snapshots and evaluating the model on the same history.",
         "level_note": "Full for a store that does not change during the script (moving store: C15/C01). Model = quiescent skiplist as a sorted list; the store invariant is proved to hold in every reachable state of the MVCC model (C02).",
         "assumptions": ["the store is not modified while the iterator script runs", "comparator is a total preorder (laws proved for bytes.Compare and CompareKV models)"],
@@ -85,13 +85,13 @@ PROPS = {
         "assumptions": ["segment items are added in ascending order (builder contract)", "input lists of the merge iterator are quiescent during the scan"],
     },
     "C11": {
-        "runs": [run("disk-load", 700, 8000)],
+        "runs": [run("disk-load", 700, 8000, search_rounds=1, search_mult=1)],
         "level_text": "Theorems over the backup-directory model, for every checksum function and every stored content: an intact backup loads exactly; every proper prefix of a shard file fails; a shard truncated at any offset or removed fails the load; unparsable/missing files.json, unparsable checksums.json or nitro.json, a checksum list of the wrong length are errors (never an empty database), a missing checksums.json gives the exact content; a manifest entry redirected to a shard with a different checksum is detected. Tied to LoadFromDisk by fault injection: a stored database (delta on/off) is damaged by single faults (every file removed, manifest bytes altered/truncated, shard bit flips and truncations, redirected entries, k = 1, conc, conc+1, all shards truncated at once); LoadFromDisk runs in child processes under a 20 s watchdog; ok(items)/error/panic/hang is compared with the model's load of the same damaged image.",
         "level_note": "Full for the loader logic as modelled. Manifests enter the model as what encoding/json makes of them (parsed / unparsable / missing) — encoding/json, os and bufio are trusted. Detection of altered payload bytes rests on the XOR-of-CRC32 checksum: the model evaluates the real CRC on every injected fault, but 'every single-byte change alters CRC32' is not proved in Coq; item reordering inside a shard and paired flips are invisible to an XOR of CRCs (format limit). Termination is observed (watchdog), not proved.",
         "assumptions": ["encoding/json, os, bufio behave as documented", "single-fault-per-file damage; checksum collisions excluded"],
     },
     "C12": {
-        "runs": [run("disk-store", 240, 3000)],
+        "runs": [run("disk-store", 240, 3000, search_rounds=1, search_mult=1)],
         "level_text": "Theorem crash_safe: for every stored content and every crash stage of the (repaired) StoreToDisk effect order — shard files holding arbitrary prefixes before the data manifest exists, manifest half-written, written without/with half/with complete checksums — the directory fails to load or loads exactly. Tied to the code by (i) copying the directory at every file-system mutation boundary of a real StoreToDisk (yield points; DiskBlockSize 64..4096) plus torn-last-file variants, loading each image in a child and comparing with the model; (ii) re-running StoreToDisk in children under RLIMIT_FSIZE for every block multiple and random budgets: a nil result must leave a directory that restores exactly.",
         "level_note": "Partial: the file system is modelled as per-file prefixes of the final content with the observed order of manifest writes — no reordering of writes across files by the kernel, no fsync semantics, no torn sectors inside a prefix. 'Every failing write is reported' is established by the budget runs (oracle), not by a theorem.",
         "assumptions": ["a crash leaves each file as a prefix of what was written to it, files appear in program order", "RLIMIT_FSIZE failures stand in for a full disk"],
